@@ -56,8 +56,13 @@ func newC07World(driver string, fee feeCfg, minS string, walletIdx int) *c07Worl
 	w.RawStore.AddAccountNode(cw.acct, cw.node)
 	if fee.Fn != nil {
 		f := fee.Fn
-		// production style: the configured fee function may work in place
-		w.Payment.WithdrawFee = func(a *big.Int) *big.Int { return a.Set(f(a)) }
+		if walletIdx%2 == 0 {
+			// production style: the configured fee function works in place
+			w.Payment.WithdrawFee = func(a *big.Int) *big.Int { return a.Set(f(a)) }
+		} else {
+			// equally legal: a pure function returning a new amount
+			w.Payment.WithdrawFee = func(a *big.Int) *big.Int { return f(new(big.Int).Set(a)) }
+		}
 	}
 	if minS != "nil" {
 		cw.min = mustBig(minS)
